@@ -228,10 +228,10 @@ func exponent(a, b interface{}) float64 {
 }
 
 func makeRange(min, max int) []int {
-	size := max - min + 1
-	if size <= 0 {
+	if max < min {
 		return []int{}
 	}
+	size := max - min + 1
 	rng := make([]int, size)
 	for i := range rng {
 		rng[i] = min + i
